@@ -1,4 +1,5 @@
 import Pixman.Model.Matrix
+import Pixman.Model.Binary64
 /-
   Model of the floating point entry points of pixman/pixman-matrix.c over EXACT RATIONALS (`Rat`, core):
   `pixman_f_transform_from_pixman_transform`, `pixman_transform_from_pixman_f_transform`,
@@ -90,10 +91,30 @@ def fInvert (m : FT) : Option FT :=
 
 /-! ### pixman_transform_from_pixman_f_transform, pixman_transform_invert -/
 
-/-- one entry of `pixman_transform_from_pixman_f_transform`: the range check, then
-    `(pixman_fixed_t) floor (d * 65536.0 + 0.5)`; `none` = return FALSE -/
+/-- one entry of `pixman_transform_from_pixman_f_transform` (as repaired in 50296f6): the range check, then
+    `d = d * 65536.0; (pixman_fixed_t) (d - floor (d) >= 0.5 ? floor (d) + 1 : floor (d))`; `none` = return FALSE.
+    On a `double` input every operation of this line is exact or decided exactly: `d * 65536.0` is a scaling by a power of
+    two (no overflow inside the range check, and scaling a subnormal UP loses nothing); `floor` and `floor (d) + 1` are
+    integers below 2^32; `d - floor (d)` is a multiple of `ulp (d)` in `[0, 1)`, hence representable, except for
+    `-1/2 < d < 0` with bits below 2^-53, where the exact difference lies strictly between 1/2 and 1 and so does (or is 1.0)
+    its rounding: the comparison with 0.5 comes out as in exact arithmetic.  So for a dyadic `d` (the value of a double)
+    this rational function IS the library's result: no rounding is left unmodelled in the conversion. -/
 def entryToFixed (d : Rat) : Option Int :=
-  if d < -32767 ∨ d > 32767 then none else some (d * 65536 + 1 / 2).floor
+  if d < -32767 ∨ d > 32767 then none else
+  let s := d * 65536
+  some (if s - (s.floor : Rat) ≥ 1 / 2 then s.floor + 1 else s.floor)
+
+/-- `pixman_transform_from_pixman_f_transform` on one entry given as a `double` BIT PATTERN: `none` = FALSE,
+    `some none` = a NaN passes both comparisons and reaches the cast (undefined in C). -/
+def entryFromDouble (x : Pixman.Model.Binary64.F64) : Option (Option Int) :=
+  if Pixman.Model.Binary64.isNaN x then some none
+  else if Pixman.Model.Binary64.isInf x then none
+  else match entryToFixed (Pixman.Model.Binary64.toRat x) with
+    | none => none
+    | some q => some (some q)
+
+/-- `pixman_fixed_to_double` as a bit pattern (`f / 65536.0` is exact: 32 significant bits) -/
+def fixedToDoubleBits (f : Int) : Pixman.Model.Binary64.F64 := Pixman.Model.Binary64.roundBits (fixedToRat f)
 
 /-- `pixman_transform_from_pixman_f_transform (t, ft)`: entries in row order, FALSE at the first
     entry outside `[-32767, 32767]` (the C function has then already stored the earlier entries; only
@@ -121,6 +142,29 @@ def mulEntry (l r : FT) (dy dx : Nat) : Rat :=
 def fMultiply (l r : FT) : FT :=
   ⟨mulEntry l r 0 0, mulEntry l r 0 1, mulEntry l r 0 2, mulEntry l r 1 0, mulEntry l r 1 1, mulEntry l r 1 2,
    mulEntry l r 2 0, mulEntry l r 2 1, mulEntry l r 2 2⟩
+
+/-- `pixman_f_transform_init_scale / init_rotate / init_translate` -/
+def fInitScale (sx sy : Rat) : FT := ⟨sx, 0, 0, 0, sy, 0, 0, 0, 1⟩
+def fInitRotate (c s : Rat) : FT := ⟨c, -s, 0, s, c, 0, 0, 0, 1⟩
+def fInitTranslate (tx ty : Rat) : FT := ⟨1, 0, tx, 0, 1, ty, 0, 0, 1⟩
+
+/-- shared shape of `pixman_f_transform_scale / rotate / translate`: `forward := tf * forward`,
+    `reverse := reverse * tr`; either pointer may be NULL (`none`) -/
+def fApplyPair (forward reverse : Option FT) (tf tr : FT) : Option FT × Option FT :=
+  (forward.map fun f => fMultiply tf f, reverse.map fun r => fMultiply r tr)
+
+/-- `pixman_f_transform_scale (forward, reverse, sx, sy)`: `(return value, *forward, *reverse)` -/
+def fScale (forward reverse : Option FT) (sx sy : Rat) : Bool × Option FT × Option FT :=
+  if sx = 0 ∨ sy = 0 then (false, forward, reverse)
+  else (true, fApplyPair forward reverse (fInitScale sx sy) (fInitScale (1 / sx) (1 / sy)))
+
+/-- `pixman_f_transform_rotate (forward, reverse, c, s)` -/
+def fRotate (forward reverse : Option FT) (c s : Rat) : Bool × Option FT × Option FT :=
+  (true, fApplyPair forward reverse (fInitRotate c s) (fInitRotate c (-s)))
+
+/-- `pixman_f_transform_translate (forward, reverse, tx, ty)` -/
+def fTranslate (forward reverse : Option FT) (tx ty : Rat) : Bool × Option FT × Option FT :=
+  (true, fApplyPair forward reverse (fInitTranslate tx ty) (fInitTranslate (-tx) (-ty)))
 
 /-- `a = 0; for (i) a += t->m[j][i] * v->v[i]` -/
 def rowDot (t : FT) (v : FV) (j : Nat) : Rat :=
